@@ -340,6 +340,44 @@ def _once_fit_pad(run, P, f: Func):
         raise AnalysisError("wrap_line_base: fit test not found")
     hn = first(f"V_h = V_i < len(V_t) - 1", lp)
     has_next = hn[1]["V_h"] if hn[0] is not None else None
+    if has_next is None:
+        # a count-down: <left> = len(<tokens>) before the loop, <left> -= 1 as the first thing
+        # in it, <h> = <left> > 0
+        toks = norm(lp.iter)
+        body = [s_ for s_ in lp.body if not (isinstance(s_, ast.Expr) and isinstance(s_.value, ast.Constant))]
+        for s_ in body:
+            m_ = first("V_h = V_left > 0", s_)
+            if m_[0] is None:
+                continue
+            left = m_[1]["V_left"]
+            init = [x for x in func_body_stmts(f.node) if isinstance(x, ast.Assign)
+                    and norm(x) == f"{left} = len({toks})"]
+            decs = [x for x in ast.walk(f.node) if isinstance(x, ast.AugAssign) and dotted(x.target) == left]
+            others = [x for x in ast.walk(f.node) if isinstance(x, ast.Assign)
+                      and any(dotted(t_) == left for t_ in x.targets) and x not in init]
+            if len(init) == 1 and len(decs) == 1 and not others and body and decs[0] is body[0] \
+                    and norm(decs[0]) == f"{left} -= 1" and body.index(s_) >= 1:
+                has_next = m_[1]["V_h"]
+    if has_next is None:
+        negs = {v.operand.id for v in ast.walk(fit.test) if isinstance(v, ast.UnaryOp)
+                and isinstance(v.op, ast.Not) and isinstance(v.operand, ast.Name)}
+        word_ = dotted(lp.target) if isinstance(lp.target, ast.Name) else None
+        for nm in sorted(negs):
+            for x in ast.walk(lp):
+                if isinstance(x, ast.Assign) and any(dotted(t_) == nm for t_ in x.targets) \
+                        and isinstance(x.value, ast.Compare) and len(x.value.ops) == 1 \
+                        and isinstance(x.value.ops[0], (ast.Is, ast.IsNot, ast.Eq, ast.NotEq)) \
+                        and word_ in (dotted(x.value.left), dotted(x.value.comparators[0])):
+                    run.ob("C20.fit", f, x, False,
+                           construct=f"'{nm}' (is this the last word?) is decided by comparing the word "
+                                     f"itself: {norm(x, 60)}",
+                           why="an earlier word that is equal to (or the same object as) the last one "
+                               "is taken for the last: it is allowed to fill the line, and the "
+                               "continuation marker after it makes the line too wide")
+                    return
+        if negs:
+            raise AnalysisError(f"wrap_line_base: what {sorted(negs)} in the fit test stand for is not "
+                                "recognised (neither index < len - 1 nor a count-down)")
     bad = []
 
     def visit(e, guarded):
